@@ -15,6 +15,9 @@ from .c02 import _decide
 
 PER = {t: "per" for t in ("left", "right", "top", "bottom")}
 OPEN = {"left": "insub", "right": "outsub", "top": "sym", "bottom": "sym"}
+# mixed configurations: periodic along one direction only (walls on the other pair)
+XPER = {"left": "per", "right": "per", "top": "sym", "bottom": "sym"}
+YPER = {"left": "sym", "right": "sym", "top": "per", "bottom": "per"}
 
 
 # --------------------------------------------------------------------------- helpers
@@ -180,6 +183,31 @@ def transpose(check):
                         check.violation("STN-TRANSPOSE", construct, "relation %s|%s on %s := %s (line %d) has no transposed twin: the x and y code paths differ (exchange i<->j, nx<->ny, dx<->dy, i-faces<->j-faces)" % (r.array, r.fam, dom_key(A, r), A.show(r.expr, 160), r.lineno), "", key="transpose-" + st_name)
                     else:
                         check.ok("STN-TRANSPOSE", construct, "the %d decoded relations are closed under the transposition (i,j,nx,ny,dx,dy,i-face) <-> (j,i,ny,nx,dy,dx,j-face)" % len(rels))
+    # periodic along one direction only: the relations of (x periodic, y walls) are the transposes of
+    # those of (y periodic, x walls), stage by stage and in both directions
+    for recon in ("extrapol2d1", "extrapol2dk"):
+        for shapes in ((1,), (2,)):
+            try:
+                Dx, sx, _, _, ci = collect(proj, shapes, XPER, recon)
+                Dy, sy, _, _, _ = collect(proj, shapes, YPER, recon)
+            except AnalysisError as e:
+                check.undecided("STN-TRANSPOSE", "modeldisc.fvm2dcart [%s, mixed periodicity]" % recon, str(e))
+                continue
+            for st_name in ("calc_grad", "calc_bc_grad", "interp_face", "calc_res"):
+                for (Da, ra, Db, rb, nm) in ((Dx, sx[st_name], Dy, sy[st_name], "x-periodic -> y-periodic"), (Dy, sy[st_name], Dx, sx[st_name], "y-periodic -> x-periodic")):
+                    missing = []
+                    for r in ra:
+                        t = transpose_relation(Da, r)
+                        # the two runs have their own algebras: compare through the printed normal form of the same atoms
+                        if not any((t.array, t.fam, t.kind) == (o.array, o.fam, o.kind) and dom_key(Da.eng.alg, t) == dom_key(Db.eng.alg, o)
+                                   and Da.eng.alg.show(t.expr, 4000) == Db.eng.alg.show(o.expr, 4000) for o in rb):
+                            missing.append(r)
+                    construct = "modeldisc.fvm2dcart.%s [%s, %s, %s]" % (st_name, recon, nm, "vector" if shapes == (2,) else "scalar")
+                    if missing:
+                        r = missing[0]
+                        check.violation("STN-TRANSPOSE", construct, "relation %s|%s on %s := %s (line %d) of the %s configuration has no transposed twin in the other one: with periodicity along one direction only the x and y code paths differ" % (r.array, r.fam, dom_key(Da.eng.alg, r), Da.eng.alg.show(r.expr, 160), r.lineno, nm.split(" -> ")[0]), "", key="transpose-mixed-" + st_name)
+                    else:
+                        check.ok("STN-TRANSPOSE", construct, "the %d relations have their transposed twins in the transposed configuration" % len(ra))
     # time step: symmetric characteristic length
     from ..algebra import Algebra
     f = proj.func("modeldisc.fvm2dcart.calc_timestep")
@@ -451,16 +479,33 @@ def row_1d_agree(check):
 def seam_2d(check):
     """periodic closures of the 2D gradients == interior template wrapped modulo nx / ny"""
     proj = check.proj
-    D, stages, calls, got, ci = collect(proj, (1,), PER)
+    for bct, bname, axes in ((PER, "periodic", ("i", "j")), (XPER, "x-periodic, y walls", ("i",)), (YPER, "y-periodic, x walls", ("j",))):
+        _seam_2d(check, proj, bct, bname, axes)
+
+
+def _seam_2d(check, proj, bct, bname, axes):
+    D, stages, calls, got, ci = collect(proj, (1,), bct)
     A = D.eng.alg
     f = proj.func("modeldisc.fvm2dcart.calc_bc_grad")
     tmpl = {r.fam: r for r in stages["calc_grad"] if r.kind == "row"}
+    # presence: each periodic direction has its two seam lines closed
+    have = set()
+    for r in stages["calc_bc_grad"]:
+        axis = "i" if r.kind == "col" else "j"
+        have.add((axis, r.dom[axis]))
+    for axis in axes:
+        n = "nx" if axis == "i" else "ny"
+        for line in ("0", n):
+            if (axis, line) not in have:
+                check.violation("SEAM-2D", "%s [%s]" % (f.qualname, bname), "no periodic closure of the %s-differences on the seam line %s=%s in the configuration '%s': they stay zero there and the states next to the seam lose their kappa terms" % ("x" if axis == "i" else "y", axis, line, bname), f.loc(), key="seam-missing-%s-%s" % (axis, line))
     for r in stages["calc_bc_grad"]:
         t = tmpl.get(r.fam)
         if t is None:
             check.undecided("SEAM-2D", f.qualname, "no interior template for family %s" % r.fam, f.loc())
             continue
         axis = "i" if r.kind == "col" else "j"
+        if axis not in axes:
+            continue            # boundary lines of the non-periodic direction: one-sided closure, not a seam
         line = r.dom[axis]
         n = "nx" if axis == "i" else "ny"
         base = {"0": 0, n: None}.get(line, "?")
@@ -483,7 +528,7 @@ def seam_2d(check):
             mp[aid] = A.sym("%s|%s|%s|%s" % (m.group("name"), m.group("fam"), i_c, j_c))
         want = A.subst(t.expr, mp)
         ok = A.equal(r.expr, want)
-        check.record("SEAM-2D", "%s [%s-faces, %s=%s]" % (f.qualname, r.fam[0], axis, line), ok,
+        check.record("SEAM-2D", "%s [%s-faces, %s=%s, %s]" % (f.qualname, r.fam[0], axis, line, bname), ok,
                      "closure == interior difference with the neighbour index wrapped modulo %s" % n if ok else
                      "closure is %s, the wrapped interior template is %s" % (A.show(r.expr, 100), A.show(want, 100)), f.loc(), key="seam-%s-%s" % (r.fam, line))
 
